@@ -315,9 +315,9 @@ def r7_4(cx):
 
 
 def r7_5(cx):
-    """greedy chunking rests on find_stuff_sequence being an exhaustive in-order scan, on the truncated window (R2.6, R2.3)"""
+    """greedy chunking rests on find_stuff_sequence being an exhaustive in-order scan, on the truncated window, and on the one-byte hold-back across calls (R2.6, R2.3, R2.2)"""
     sub = cx.__class__(cx.prog, cx.profile, cx.prop)
-    for rid, f in (('R2.6', c02.r2_6), ('R2.3', c02.r2_3)):
+    for rid, f in (('R2.6', c02.r2_6), ('R2.3', c02.r2_3), ('R2.2', c02.r2_2)):
         sub.rule = rid
         try:
             f(sub)
@@ -357,7 +357,7 @@ def r7_7(cx):
     """what the codec stands on: a consumer cannot remove the still-open chunk header (R4.1-R4.3); no read size panics the allocator under encode_read / decode_read (R17.7)"""
     from . import c04, c17
     from . import c03
-    compose(cx, [('R4.1', c04.r4_1), ('R4.2', c04.r4_2), ('R4.3', c04.r4_3), ('R3.3', c03.r3_3), ('R17.7', c17.r17_7)])
+    compose(cx, [('R4.1', c04.r4_1), ('R4.2', c04.r4_2), ('R4.3', c04.r4_3), ('R4.5', c04.r4_5), ('R3.3', c03.r3_3), ('R17.7', c17.r17_7)])
 
 
 RULES = [('R7.1', r7_1), ('R7.2', r7_2), ('R7.3', r7_3), ('R7.4', r7_4), ('R7.5', r7_5), ('R7.6', r7_6), ('R7.7', r7_7)]
